@@ -1,19 +1,17 @@
 """Registry of checks: property id -> how ./check runs it and what MANIFEST.json says about it.
+Fragments live in reg/<group>.py, each defining CHECKS = {...} built with reg.c(...).
 quick/thorough: checks = rapid cases per shard, shards = parallel processes, timeout = seconds (go test deadline)."""
+import glob, importlib.util, os
 
-def _c(group, test, quick, thorough, level="exploration", **kw):
-    d = dict(group=group, test=test, quick=quick, thorough=thorough, level=level)
-    d.update(kw)
-    return d
-
-CHECKS = {
-    "C01": _c("store", "TestC01", dict(checks=3000, timeout=300), dict(checks=30000, shards=14, timeout=1500),
-              technique="stateful property-based testing (rapid state machine) against a map-overlay reference model",
-              design_ref="§7 C01",
-              level_text="Generated operation histories over nested cachekv stores compared step by step with a map overlay model; "
-                         "exploration only: bounded history length and a small key alphabet, no absence claim.",
-              level_note="Trusts tm-db MemDB as the base store, rapid, and the ~40-line overlay model. Concurrency on the store mutex is not explored."),
-}
+_here = os.path.dirname(os.path.abspath(__file__))
+CHECKS = {}
+for _f in sorted(glob.glob(os.path.join(_here, "reg", "*.py"))):
+    if os.path.basename(_f).startswith("_"):
+        continue
+    _spec = importlib.util.spec_from_file_location("reg_" + os.path.basename(_f)[:-3], _f)
+    _m = importlib.util.module_from_spec(_spec)
+    _spec.loader.exec_module(_m)
+    CHECKS.update(_m.CHECKS)
 
 # properties deliberately not claimed, with reason (others missing from CHECKS are "not built yet")
 NOT_APPLICABLE = {}
